@@ -131,6 +131,19 @@ pub fn schedule(max_len: usize) -> BoxedStrategy<Schedule> {
         .boxed()
 }
 
+/// random walk in which one thread is suspended at one of its first dereference points until
+/// nobody else can make progress (threads are numbered in spawn order; 0 is the controller)
+pub fn stall_schedule(max_len: usize) -> BoxedStrategy<Schedule> {
+    (
+        prop_oneof![4 => Just(1u8), 3 => Just(2u8), 3 => 3u8..=8u8],
+        0u8..8,
+        prop_oneof![Just(223u8), Just(247u8)],
+        vec(any::<u8>(), 0..max_len),
+    )
+        .prop_map(|(victim, nth, stay, bytes)| Schedule { policy: Policy::Stall { victim, nth, stay }, bytes })
+        .boxed()
+}
+
 // ---- sequential histories (E2) ------------------------------------------------------------
 
 #[derive(Clone, Copy, Debug, PartialEq, Eq)]
@@ -1007,13 +1020,19 @@ pub fn churn_scenario_with(opts: ExecOpts, rounds_max: usize, wait: BoxedStrateg
         vec(2u8..=20, 1..=2),                                  // writers: number of sends each
         vec(vec(round, 4..rounds_max), 1..=3),                 // churn threads
         prop_oneof![4 => Just(0usize), 1 => Just(1usize), 1 => Just(2usize)], // idle handles
-        schedule(600),
+        // lone-handle threads: a thread that owns nothing but the handle it is giving up (or adding
+        // a stream from), so no other token of that thread holds reclamation back while it is
+        // suspended in the middle of the stream-list update.  (kind, operations before)
+        prop_oneof![3 => Just(vec![]), 3 => vec((0u8..5, 0u8..3), 1..=1), 2 => vec((0u8..5, 0u8..3), 2..=2)],
+        prop_oneof![2 => schedule(600), 1 => stall_schedule(600)],
     )
-        .prop_map(move |(q, writers, churners, idle, sched)| {
+        .prop_map(move |(q, writers, churners, idle, lone, sched)| {
             let mut main = Vec::new();
             // every churner gets a handle of its own stream (broadcast) or a clone (mpmc) plus a
             // sender; the controller keeps only the idle handles
-            let nrx = churners.len() + idle;
+            let lone_rx = lone.iter().filter(|(k, _)| *k < 4).count();
+            let lone_tx = lone.len() - lone_rx;
+            let nrx = churners.len() + idle + lone_rx;
             for _ in 1..nrx {
                 if q.flavour == Flavour::Broadcast {
                     main.push(Op::AddStream { rx: 0 });
@@ -1021,11 +1040,34 @@ pub fn churn_scenario_with(opts: ExecOpts, rounds_max: usize, wait: BoxedStrateg
                     main.push(Op::CloneRx { rx: 0 });
                 }
             }
-            let ntx = writers.len() + churners.len() + idle;
+            let ntx = writers.len() + churners.len() + idle + lone_tx;
             for _ in 1..ntx {
                 main.push(Op::CloneTx { tx: 0 });
             }
             let mut progs: Vec<Prog> = vec![Prog { ops: vec![], ret: false }];
+            for (kind, pre) in &lone {
+                let p = progs.len() as u8;
+                let mut ops: Vec<Op> = Vec::new();
+                if *kind < 4 {
+                    main.push(Op::Spawn { prog: p, tx: vec![], rx: vec![0] });
+                    for _ in 0..*pre {
+                        ops.push(Op::TryRecv { rx: 0 });
+                    }
+                    match *kind {
+                        0 => ops.push(Op::DropRx { rx: 0 }),
+                        1 => ops.push(Op::UnsubRx { rx: 0 }),
+                        2 => ops.extend(mpmc_round(&[Op::AddStream { rx: 0 }, Op::DropRx { rx: 65535 }], q.flavour)),
+                        _ => ops.extend(mpmc_round(&[Op::AddStream { rx: 0 }, Op::DropRx { rx: 0 }], q.flavour)),
+                    }
+                } else {
+                    main.push(Op::Spawn { prog: p, tx: vec![0], rx: vec![] });
+                    for _ in 0..*pre {
+                        ops.push(Op::TrySend { tx: 0 });
+                    }
+                    ops.push(Op::DropTx { tx: 0 });
+                }
+                progs.push(Prog { ops, ret: false });
+            }
             for k in &writers {
                 let p = progs.len() as u8;
                 main.push(Op::Spawn { prog: p, tx: vec![0], rx: vec![] });
